@@ -182,12 +182,15 @@ pub fn growers_family(ctx: &mut Ctx) {
                     finding = Some((site, "item-exceeds-max-points-in-program".into(), format!("after step {} an item on the CODE/EXEC stack has {} points, max-points-in-program is {}", steps, maxp, max_points)));
                     break;
                 }
-                let mut name_bytes = 0usize;
+                // the longest single name: only an instruction that *builds* a name can make it longer
+                // (a copy made by NAME.DUP is as long as its original), so the step that crosses the
+                // threshold names the cause
+                let mut longest = 0usize;
                 for k in 0..st.name_stack.size() {
-                    name_bytes += st.name_stack.get(k).unwrap().len();
+                    longest = longest.max(st.name_stack.get(k).unwrap().len());
                 }
-                if name_bytes > MIB {
-                    finding = Some((site, "name-bytes-grow-without-limit".into(), format!("after step {} the NAME stack holds {} bytes", steps, name_bytes)));
+                if longest > MIB / 2 {
+                    finding = Some((site, "name-bytes-grow-without-limit".into(), format!("after step {} a name on the NAME stack is {} bytes long", steps, longest)));
                     break;
                 }
                 if st.size() > before + cap {
